@@ -168,6 +168,13 @@ class World(WsWorld):
             if split:
                 self.at(t0, "handshake-part", lambda: self.send_handshake(hs, 0.5))
             self.at(t, "handshake", lambda: self.send_handshake(hs, 1.0))
+        if is_server and cfg["oht"] > 0 and ch.flag("server-cannot-complete-handshake", 0.12):
+            # the peer does its part in time, but the server side cannot complete the handshake: its onConnect()
+            # names a subprotocol the client never offered (the library refuses that when it builds the response).
+            # The opening-handshake deadline is the safety net for such a connection.
+            e.hooks["on_connect"] = lambda req: "subprotocol-never-offered"
+            self.dl_open["reaction"] = None
+            self.run.probe("server-cannot-complete-handshake")
         self.plan_made = False
         # optional wall-clock jump (only the ping payload / RTT computation reads it)
         if ch.flag("wall-clock-jump", 0.15):
